@@ -49,6 +49,7 @@ func NewChangeCollector(startRoot Key) ChangeCollectorI {
 }
 
 func (cc *ChangeCollector) GetStartRoot() Key {
+	vyield("changes:startroot")
 	return cc.startRoot
 }
 
@@ -110,6 +111,7 @@ func (cc *ChangeCollector) DeleteChange(oldNode Node) {
 
 /*GetChanges - implement interface */
 func (cc *ChangeCollector) GetChanges() []*NodeChange {
+	vyield("changes:get")
 	cc.mutex.RLock()
 	defer cc.mutex.RUnlock()
 	changes := make([]*NodeChange, len(cc.Changes))
@@ -125,6 +127,7 @@ func (cc *ChangeCollector) GetChanges() []*NodeChange {
 
 /*GetDeletes - implement interface */
 func (cc *ChangeCollector) GetDeletes() []Node {
+	vyield("changes:deletes")
 	cc.mutex.RLock()
 	defer cc.mutex.RUnlock()
 	deletes := make([]Node, 0, len(cc.Deletes))
@@ -200,6 +203,7 @@ func (cc *ChangeCollector) Validate() error {
 
 // Clone returns a copy of the change collector
 func (cc *ChangeCollector) Clone() ChangeCollectorI {
+	vyield("changes:clone")
 	cc.mutex.RLock()
 	defer cc.mutex.RUnlock()
 
